@@ -3,10 +3,14 @@ use chess_api::{abi_stable::export_root_module, Board, MoveResult};
 
 #[export_root_module]
 fn load_api() -> chess_api::ChessApiRefRaw {
-    PrefixTypeTrait::leak_into_prefix(chess_api::ChessApi::new(|| ChessBot {
-        three_fold: chess_engine::ThreeFold::new(),
-        board: Board::standard(),
-        engine: chess_engine::Engine::default(),
+    PrefixTypeTrait::leak_into_prefix(chess_api::ChessApi::new(|| {
+        let mut bot = ChessBot {
+            three_fold: chess_engine::ThreeFold::new(),
+            board: Board::standard(),
+            engine: chess_engine::Engine::default(),
+        };
+        chess_api::ChessEngineTrait::set_board(&mut bot, Board::standard());
+        bot
     }))
 }
 
@@ -25,6 +29,8 @@ impl chess_api::ChessEngineTrait for ChessBot {
     fn set_board(&mut self, board: Board) {
         self.board = board;
         self.three_fold = chess_engine::ThreeFold::new();
+        // the position the game starts from is its first occurrence
+        self.three_fold.add(board);
     }
 
     fn make_move(&mut self, mv: chess_api::StableChessMove) -> MoveResult {
